@@ -104,7 +104,8 @@ def parse_verdicts(res, n_expected, what):
             extra = m.group(3)
             verdicts[tid] = (clauses, extra)
     if len(verdicts) != n_expected:
-        tail = "\n".join(res.lines[-30:])
+        errs = [i for i, l in enumerate(res.lines) if l.startswith("Error:")]
+        tail = "\n".join(res.lines[errs[0]:errs[0] + 12] if errs else res.lines[-30:])
         raise MachineryError(f"{what}: {len(verdicts)} verdicts for {n_expected} traces (rc={res.rc})\n{tail}")
     return verdicts
 
